@@ -226,3 +226,48 @@ func zzC10_client() {
 	vAssert(len(fired) == 3 && fired[0] == 2 && fired[1] == 3 && fired[2] == 4, "after the handshake every matching message runs its handler, once")
 	vReach("C10_client")
 }
+
+// zzC10_client_early: a rejecting CEA (and application messages behind it) reaches the client while
+// the dialling goroutine is still inside the write of its CER (a transport slow to accept it): the
+// dial must fail and no application handler may run, then or afterwards.
+func zzC10_client_early() {
+	st := New(zzSettings(true))
+	var fired []int
+	st.HandleFunc("CCA", func(c diam.Conn, m *diam.Message) { fired = append(fired, 2) })
+	st.HandleIdx(diam.CommandIndex{AppID: 4, Code: diam.ReAuth, Request: true}, diam.HandlerFunc(func(c diam.Conn, m *diam.Message) { fired = append(fired, 3) }))
+	st.HandleFunc("ALL", func(c diam.Conn, m *diam.Message) { fired = append(fired, 4) })
+	cli := zzClient(st, vLen("retransmits", 0, 1), false)
+	t := zzNewTransport("198.51.100.7:3868")
+	t.slowWrites, t.writeDelay = 1, zzTickD/2
+	var conn diam.Conn
+	var herr error
+	done := false
+	go func() {
+		conn, herr = cli.NewConn(t, "zz")
+		done = true
+	}()
+	vQuiesce()
+	vAssume(len(t.written) == 0 && !done) // the CER is still being written
+	rc := vU32("rc")
+	vAssume(rc != diam.Success)
+	cea := diam.NewMessage(diam.CapabilitiesExchange, 0, 0, 7, 8, dict.Default)
+	cea.NewAVP(avp.ResultCode, avp.Mbit, 0, datatype.Unsigned32(rc))
+	cea.NewAVP(avp.OriginHost, avp.Mbit, 0, datatype.DiameterIdentity("peer.example"))
+	cea.NewAVP(avp.OriginRealm, avp.Mbit, 0, datatype.DiameterIdentity("peers"))
+	cea.NewAVP(avp.AuthApplicationID, avp.Mbit, 0, datatype.Unsigned32(4))
+	for _, m := range []*diam.Message{cea, zzAppMsg(diam.CreditControl, 4, false), zzAppMsg(diam.ReAuth, 4, true), zzAppMsg(diam.AbortSession, 4, true)} {
+		b, err := m.Serialize()
+		vAssume(err == nil)
+		t.in <- b
+	}
+	vQuiesce()
+	vAssert(len(fired) == 0, "client side: no application handler runs on a rejecting CEA, whenever it arrives")
+	for !done && vPendingTimers() > 0 {
+		vAdvance()
+		vQuiesce()
+	}
+	vAssert(done && conn == nil && herr != nil, "the dial fails")
+	vAssert(len(fired) == 0, "and no application handler has run")
+	vAssert(t.isClosed, "the transport is closed")
+	vReach("C10_client_early")
+}
